@@ -753,6 +753,10 @@ class Interp:
                     if isinstance(r, Unknown):
                         return r
                 return None
+            if isinstance(v, (tuple, list)) and not any(isinstance(e, ast.Starred) for e in t.elts):
+                # a concrete sequence of the wrong length: Python raises ValueError here
+                raise InterpAbort('ValueError', t, s.root().rel,
+                                  f'{"not enough" if len(v) < len(t.elts) else "too many"} values to unpack (expected {len(t.elts)}, got {len(v)})')
             return self.unk('cannot unpack', t, s)
         return self.unk('unmodelled assignment target', t, s)
 
